@@ -65,7 +65,8 @@ PROPS = {
             "theorems": ["RModel.Impl.readme_bound", "RModel.Impl.bound_function", "RModel.BSet.canon_ext"] + F_SERIAL,
             "modules": DEFAULT_MODULES + [FACTS, "RProofs.Properties.C14"], "owns": {"size"}},
     "C15": {"suites": [("nbr", 1.0), ("kernq", 0.3)], "theorems": L1_NBR, "owns": {"nv", "pv", "nav", "pav", "kern"}},
-    "C16": {"suites": [("xform", 1.0)], "theorems": L1_XFORM, "owns": {"off", "off32", "sflip", "eq"}},
+    "C16": {"suites": [("xform", 1.0), ("dense", 1.0)], "theorems": L1_XFORM,
+            "owns": {"off", "off32", "sflip", "eq", "dense", "fromdense", "frombitset", "densechk", "dig"}},
 }
 
 HOOK_COMMITS = ["ad703f4"]
